@@ -168,7 +168,9 @@ def c05(obj, kind, case, cfg, rec, rng, ref_obj=None):
     def probe_frame(col, values, dtype):
         d = {c: [base_row[c]] * len(values) for c in X.columns}
         df = pd.DataFrame({c: pd.Series(v, dtype=X[c].dtype) for c, v in d.items()})
-        df[col] = pd.Series(values, dtype=dtype); return df
+        df[col] = pd.Series(values, dtype=dtype)
+        df.index = [i * 2 + 50 for i in range(len(df))] if len(values) % 2 else ['p%02d' % i for i in range(len(df))]          # a new frame rarely has a RangeIndex
+        return df
     def judge(name, df, f, expect_reject=None):
         try:
             out = obj.transform(df)
@@ -201,6 +203,10 @@ def c05(obj, kind, case, cfg, rec, rng, ref_obj=None):
         else:
             unseen = 'never_seen_%d' % rng.randint(0, 9)
             has_default = ref_obj.str_default is not None and ref_obj.str_default in ref_obj.values_orders[f].values()
+            if raw in case.get('qualitative', []) and kind in ('Discretizer', 'QualitativeDiscretizer', 'BinaryCarver', 'ContinuousCarver') and 'min_freq' in cfg and not cfg.get('min_freq_edited'):
+                # independent of the fitted object: a categorical feature with a modality rarer than min_freq MUST have a default group (C09), so unseen categories must be accepted
+                vc = X[raw].dropna().map(S).value_counts() / len(X)
+                if (vc < cfg['min_freq']).any(): has_default = True
             judge('.unseen_category', probe_frame(raw, [unseen, base_row[raw]], object), f, expect_reject=(not has_default))
             if not order.contains(obj.str_nan):
                 judge('.missing_where_none_seen', probe_frame(raw, [np.nan, base_row[raw]], object), f, expect_reject=True)
@@ -463,6 +469,17 @@ def c16(obj, kind, case, cfg, rec):
 # --------------------------------------------------------------------------------------------------------- driver
 def one(arg):
     kind, case, cfg, props, seed = arg
+    if cfg.get('n_jobs', 1) > 1:
+        # the parallel branches (fit and transform) run with an in-process pool completing in arbitrary order; a real Pool cannot be started from a pool worker
+        from rtc.c10_independence import patch_pools, unpatch
+        saved = patch_pools()
+        try: return _one(arg)
+        finally: unpatch(saved)
+    return _one(arg)
+
+
+def _one(arg):
+    kind, case, cfg, props, seed = arg
     import random
     rng = random.Random(seed)
     recs = []
@@ -487,7 +504,7 @@ def one(arg):
         try: fn()
         except Exception as e:
             recs.append(('X:battery_crash', False, lit, '%s clause group crashed: %s' % (p, traceback.format_exc()[-700:])))
-    if ('C04' in props or 'C06' in props or 'C16' in props) and kind in ('BinaryCarver', 'ContinuousCarver', 'Discretizer'):
+    if ('C04' in props or 'C06' in props or 'C16' in props or 'C05' in props) and kind in ('BinaryCarver', 'ContinuousCarver', 'Discretizer'):
         # the same clauses on a manually edited object (update_discretizer), as the quantifiers of C04 / C06 say
         try:
             from rtc.c17_edits import candidate_edits
@@ -500,6 +517,7 @@ def one(arg):
                 rec_e = lambda c, ok, m, ex=None: rec(c + '.after_edit', ok, m, dict(ex or {}, edits=done))
                 if 'C04' in props: c04(eo, kind, case, cfg, rec_e)
                 if 'C06' in props: c06(eo, kind, case, cfg, rec_e, rng)
+                if 'C05' in props: c05(eo, kind, case, dict(cfg, min_freq_edited=True), rec_e, rng)
                 if 'C16' in props: c16(eo, kind, case, cfg, lambda c, ok, m, ex=None: rec_e(c, ok, m, ex) if 'history' not in c else None)
         except Exception as e:
             recs.append(('X:battery_crash', False, lit, 'edited-object clauses crashed: %s' % traceback.format_exc()[-600:]))
